@@ -795,4 +795,13 @@ theorem split_buffering_keeps_copy_witness :
 
 end CbfTwoThreads
 
+/-- regenerated from the SOURCE (harness/gen_router.py, ast pass over location_table.py and router.py): the duplicate packet
+list of a location table entry is touched by the entry's constructor and by the DPD step `check_duplicate_sn` ONLY - the model's
+`dpl` changes in `dplPush` alone; no exception handler, no maintenance method takes an accepted sequence number out again
+(seeded change C06-m12 adds `LocationTableEntry.forget_sn`, called when the link layer refuses the re-broadcast: the
+obligation no longer checks) -/
+theorem dpl_touched_by_dpd_only :
+    Generated.RouterRx.dplTouchers = ["LocationTableEntry.__init__", "LocationTableEntry.check_duplicate_sn"] := by
+  decide
+
 end Props.C06
